@@ -449,10 +449,14 @@ WideSumO(m, s, i, acc, kind) ==
 
 HeadUP(m, s) == [m EXCEPT !.rv = [u |-> UtilOf(m, s), p |-> St[s].prong]]
 
+\* HeadState::deepReportChange / deepReportUtilize : a user head reports through wrapUtility (logged), the anonymous
+\* head's specialisation answers without going through a wrapper (nothing logged even in verbose mode)
+HeadReport(m, s) == IF HasUser(s) THEN FireReport(m, s, "utility") ELSE m
+
 DeepReportChange(m, s) ==
     CASE St[s].kind = "S" -> HeadUP(FireReport(m, s, "utility"), s)
       [] St[s].kind = "O" ->
-            LET mh == FireReport(m, s, "utility")
+            LET mh == HeadReport(m, s)
                 ms == WideSumO(mh, s, 1, RZero, "change")
                 ml == Log(ms, <<"ut", s, 0, RDivI(ms.rv, St[s].width)>>)
             IN [ml EXCEPT !.rv = [u |-> RMul(UtilOf(m, s), RDivI(ms.rv, St[s].width)), p |-> St[s].prong]]
@@ -460,23 +464,23 @@ DeepReportChange(m, s) ==
             LET c == St[s].compo  sg == St[s].strat IN
             CASE sg = "Composite" ->
                     LET m1 == [m EXCEPT !.req[c] = 1]
-                        mh == FireReport(m1, s, "utility")
+                        mh == HeadReport(m1, s)
                         ms == DeepReportChange(mh, Kid(s, 1))
                     IN [ms EXCEPT !.rv = [u |-> RMul(UtilOf(m, s), ms.rv.u), p |-> St[s].prong]]
               [] sg \in {"Resumable", "Selectable"} ->
                     \* deepReportChangeSelectable takes resumable-or-first, not select() (D12)
                     LET r  == IF m.res[c] # 0 THEN m.res[c] ELSE 1
                         m1 == [m EXCEPT !.req[c] = r]
-                        mh == FireReport(m1, s, "utility")
+                        mh == HeadReport(m1, s)
                         ms == DeepReportChange(mh, Kid(s, r))
                     IN [ms EXCEPT !.rv = [u |-> RMul(UtilOf(m, s), ms.rv.u), p |-> St[s].prong]]
               [] sg = "Utilitarian" ->
-                    LET mh == FireReport(m, s, "utility")
+                    LET mh == HeadReport(m, s)
                         ms == WideBest(mh, s, 1, [u |-> RZero, p |-> 0], "change")
                         b  == ms.rv
                     IN [Log(ms, <<"ut", s, b.p, b.u>>) EXCEPT !.req[c] = b.p, !.rv = [u |-> RMul(UtilOf(m, s), b.u), p |-> St[s].prong]]
               [] sg = "Random" ->
-                    LET mh == FireReport(m, s, "utility")
+                    LET mh == HeadReport(m, s)
                         mr == WideRanks(mh, s, 1, <<>>)
                         mu == WideUtils(mr, s, 1, mr.rv.ranks, mr.rv.top, <<>>, "change")
                         mx == ResolveRandom(mu, s, mu.rv.utils, mu.rv.sum, mr.rv.ranks, mr.rv.top)
@@ -486,13 +490,13 @@ DeepReportChange(m, s) ==
 DeepReportUtilize(m, s) ==
     CASE St[s].kind = "S" -> HeadUP(FireReport(m, s, "utility"), s)
       [] St[s].kind = "O" ->
-            LET mh == FireReport(m, s, "utility")
+            LET mh == HeadReport(m, s)
                 ms == WideSumO(mh, s, 1, RZero, "utilize")
                 ml == Log(ms, <<"ut", s, 0, RDivI(ms.rv, St[s].width)>>)
             IN [ml EXCEPT !.rv = [u |-> RMul(UtilOf(m, s), RDivI(ms.rv, St[s].width)), p |-> St[s].prong]]
       [] St[s].kind = "C" ->
             LET c  == St[s].compo
-                mh == FireReport(m, s, "utility")
+                mh == HeadReport(m, s)
                 ms == WideBest(mh, s, 1, [u |-> RZero, p |-> 0], "utilize")
                 b  == ms.rv
             IN [Log(ms, <<"ut", s, b.p, b.u>>) EXCEPT !.req[c] = b.p, !.rv = [u |-> RMul(UtilOf(m, s), b.u), p |-> St[s].prong]]
@@ -866,8 +870,9 @@ DeepUpdate(m, s, phase) ==
 
 RECURSIVE DeepReact(_, _, _), WideReactO(_, _, _, _, _)
 
+\* OS_::wide{PreReact,React,PostReact} : the remaining sub-states are skipped once the event is consumed
 WideReactO(m, s, phase, i, acc) ==
-    IF i > St[s].width THEN [m EXCEPT !.rv = acc]
+    IF i > St[s].width \/ (i > 1 /\ m.consumed) THEN [m EXCEPT !.rv = acc]
     ELSE LET m1 == DeepReact(m, Kid(s, i), phase) IN WideReactO(m1, s, phase, i + 1, TSOr(acc, m1.rv))
 
 \* the eight *ReactWrapperT specialisations; head-first = (pre/react: TopDown) or (post: BottomUp)
@@ -909,7 +914,7 @@ DeepReact(m, s, phase) ==
                    ELSE [ScopeOut(m2, m) EXCEPT !.rv = TSNone]
 
 RECURSIVE DeepQuery(_, _), WideQueryO(_, _, _)
-WideQueryO(m, s, i) == IF i > St[s].width THEN m ELSE WideQueryO(DeepQuery(m, Kid(s, i)), s, i + 1)
+WideQueryO(m, s, i) == IF i > St[s].width \/ (i > 1 /\ m.consumed) THEN m ELSE WideQueryO(DeepQuery(m, Kid(s, i)), s, i + 1)
 
 DeepQuery(m, s) ==
     IF St[s].kind = "S" THEN Fire(m, s, "query")
